@@ -1,9 +1,501 @@
+import TplModel.Sys.Xtpl
+import TplModel.Proofs.XtplProofs
 import TplModel.Props.C14
 /-! # C20 — xtpl extracts every translatable literal the templates pass at run time
 
-OBLIGATIONS: C14.decode_encode_dq, C14.decode_encode_sq, C14.decode_encode_raw, C14.sq2dq_correct
+"The catalogue written by xtpl keeps its header entry and contains one entry per distinct (context, msgid)
+that appears as string-literal arguments at the configured keyword positions of a call inside a ${...} block.
+The msgid, plural and context are the strings the evaluator passes to that function at run time, every
+occurrence is referenced …, and calls whose msgid argument is not a literal, or that have too few arguments,
+add nothing."
 
-Interim: the literal decoder shared by the evaluator and (as a copy) by xtpl round-trips every string in the three
-quoting styles, so the catalogue strings are the run-time strings whenever both decode the same text — which
-./check C20 verifies on the binary built from the working tree. The extraction model and its completeness /
-soundness theorems are task T20. -/
+OBLIGATIONS: XT.mem_calls_iff, XT.mem_doExtract_iff, XT.mem_extractCall_iff, XT.mem_extract_iff, XT.mergeBy_inv, XT.mem_mergeBy_iff, XT.mem_keys_mergeBy_iff, XT.save_eq_of_no_header_key, XT.goKey_eq_headerKey_iff, XT.goKey_inj, XT.parseInt_toDigits, XT.parseKeywords_cons, C14.decode_encode_dq, C14.decode_encode_sq, C14.decode_encode_raw, C14.sq2dq_correct
+
+Property theorems only; the model is `TplModel/Sys/Xtpl.lean` (namespace `XT`), the lemmas are in
+`TplModel/Proofs/XtplProofs.lean`. Every statement holds for ALL expressions, ALL keyword tables and ALL
+position functions.
+
+Vocabulary (model / proofs file):
+`calls e` = the call nodes of `e` in the order the ANTLR walker enters them (`calls_are_the_call_nodes`: exactly
+the nodes `.call …` that occur in `e`, `Sub`);
+`pos n i` = the reference (`file:line:col`) of argument `i` (1-based) of the `n`-th call node;
+`litAt args i` = the decoded string literal at position `i` (`""` if `i = 0` or that argument is not a literal);
+`entryOf kw args s o` = ⟨litAt args kw.ctx, s, litAt args kw.plural, o, cited⟩;
+`entryNoId kw args` = ⟨litAt args kw.ctx, "", litAt args kw.plural, –, not cited⟩ (only for `kw.id = 0`).
+
+FINDING recorded here (`header_replaced_by_position_zero`): `-keywords 'T:0'` (also `T:-1`, `X:1c,0`) is
+accepted by `parseKeywords`; with such a keyword `doExtract` appends an entry without msgid and without
+reference for EVERY call `T(…)` with at least one argument, and `Save` replaces the POT header by it (reproduced
+on the binary built from HEAD). The header theorems (and the C20 wording of soundness) therefore carry
+`∀ kw ∈ kws, 1 ≤ kw.id` and are named `…_partial`; the hypothesis holds for the default flag
+(`default_keywords_wf`). `extract_sound` / `mem_extract_iff` are exact for ALL tables (they list that case). -/
+namespace C20
+open XT EL
+
+/-! ## concrete inputs used by the non-vacuity examples -/
+
+def defaultKws : List Keyword :=
+  [⟨"T", 0, 1, 0⟩, ⟨"N", 0, 1, 2⟩, ⟨"N64", 0, 1, 2⟩, ⟨"X", 1, 2, 0⟩, ⟨"XN", 1, 2, 3⟩, ⟨"XN64", 1, 2, 3⟩,
+   ⟨"__", 0, 1, 0⟩, ⟨"_n", 0, 1, 2⟩, ⟨"_x", 1, 2, 0⟩, ⟨"_xn", 1, 2, 3⟩]
+
+/-- `_xn("c", 'one', \`many\`, n)` -/
+def callXn : E := .call (.name "_xn") [.lit "str" "\"c\"", .lit "str" "'one'", .lit "str" "`many`", .name "n"] false
+/-- `t.T('hello')`, `(t?.T)('hello', 1)` -/
+def callT : E := .call (.field (.name "t") false "T") [.lit "str" "'hello'"] false
+def callT2 : E := .call (.paren (.field (.name "t") true "T")) [.lit "str" "'hello'", .lit "int" "1"] false
+/-- `f(x, __('in'))[_n('a', 'b', 2)]` : calls nested in an argument and in an index -/
+def nested : E :=
+  .index (.call (.name "f") [.name "x", .call (.name "__") [.lit "str" "'in'"] false] false)
+    (.call (.name "_n") [.lit "str" "'a'", .lit "str" "'b'", .lit "int" "2"] false)
+/-- nothing to extract: non-literal msgid, too few arguments, empty msgid without context, unknown name,
+    parenthesised literal, no arguments -/
+def nothing : E :=
+  .bin "+" (.call (.name "T") [.name "x"] false)
+    (.bin "+" (.call (.name "_xn") [.lit "str" "'c'", .lit "str" "'id'"] false)
+      (.bin "+" (.call (.name "T") [.lit "str" "''"] false)
+        (.bin "+" (.call (.name "other") [.lit "str" "'x'"] false)
+          (.bin "+" (.call (.name "T") [.paren (.lit "str" "'p'")] false) (.call (.name "T") [] false)))))
+/-- `callT + callXn + callT2 + nested + nothing` -/
+def big : E := .bin "+" callT (.bin "+" callXn (.bin "+" callT2 (.bin "+" nested nothing)))
+
+def pos0 : Nat → Nat → Nat := fun n i => 100 * n + i
+
+/-! ## the keyword table -/
+
+/-- `Keyword.MaxArgIndex` is the maximum of the three positions -/
+theorem maxArg_le_iff (kw : Keyword) (n : Nat) : kw.maxArg ≤ n ↔ kw.ctx ≤ n ∧ kw.id ≤ n ∧ kw.plural ≤ n := by
+  unfold Keyword.maxArg; omega
+
+/-- the default value of `-keywords` parses to the expected table -/
+theorem parseKeywords_spec : parseKeywords defaultKeywordsFlag = some defaultKws := by decide
+
+/-- a character list that can be a function name inside the flag -/
+def NameOk (name : List Char) : Prop := name ≠ [] ∧ ':' ∉ name ∧ ';' ∉ name
+
+theorem semicolon_not_mem_dec (n : Nat) : ';' ∉ dec n := not_mem_toDigits (by decide)
+
+/-- `name` ↦ `{name, 0, 1, 0}` -/
+theorem parseKeywords_name {name : List Char} (h : NameOk name) :
+    parseKeywords (String.ofList name) = some [⟨String.ofList name, 0, 1, 0⟩] := by
+  rw [parseKeywords_single h.2.2, parseKeyword_name h.1 h.2.1]; rfl
+
+/-- `name:i` ↦ `{name, 0, i, 0}` (`dec i` = the decimal numeral of `i`, `i < 2^63`) -/
+theorem parseKeywords_id {name : List Char} {i : Nat} (h : NameOk name) (hi : i < maxPos) :
+    parseKeywords (String.ofList (name ++ ':' :: dec i)) = some [⟨String.ofList name, 0, i, 0⟩] := by
+  rw [parseKeywords_single (by simp [h.2.2, semicolon_not_mem_dec]), parseKeyword_id h.1 h.2.1 hi]; rfl
+
+/-- `name:i,j` ↦ `{name, 0, i, j}` -/
+theorem parseKeywords_id_plural {name : List Char} {i j : Nat} (h : NameOk name) (hi : i < maxPos) (hj : j < maxPos) :
+    parseKeywords (String.ofList (name ++ ':' :: (dec i ++ ',' :: dec j))) =
+      some [⟨String.ofList name, 0, i, j⟩] := by
+  rw [parseKeywords_single (by simp [h.2.2, semicolon_not_mem_dec]), parseKeyword_id_plural h.1 h.2.1 hi hj]; rfl
+
+/-- `name:ic,j` ↦ `{name, i, j, 0}` -/
+theorem parseKeywords_ctx_id {name : List Char} {i j : Nat} (h : NameOk name) (hi : i < maxPos) (hj : j < maxPos) :
+    parseKeywords (String.ofList (name ++ ':' :: (dec i ++ 'c' :: ',' :: dec j))) =
+      some [⟨String.ofList name, i, j, 0⟩] := by
+  rw [parseKeywords_single (by simp [h.2.2, semicolon_not_mem_dec]), parseKeyword_ctx_id h.1 h.2.1 hi hj]; rfl
+
+/-- `name:ic,j,k` ↦ `{name, i, j, k}` -/
+theorem parseKeywords_ctx_id_plural {name : List Char} {i j k : Nat} (h : NameOk name)
+    (hi : i < maxPos) (hj : j < maxPos) (hk : k < maxPos) :
+    parseKeywords (String.ofList (name ++ ':' :: (dec i ++ 'c' :: ',' :: (dec j ++ ',' :: dec k)))) =
+      some [⟨String.ofList name, i, j, k⟩] := by
+  rw [parseKeywords_single (by simp [h.2.2, semicolon_not_mem_dec]),
+    parseKeyword_ctx_id_plural h.1 h.2.1 hi hj hk]; rfl
+
+/-- the flag is parsed item by item: `item;rest` -/
+theorem parseKeywords_items {item rest : List Char} (h : ';' ∉ item) :
+    parseKeywords (String.ofList (item ++ ';' :: rest)) =
+      (parseKeyword item).bind fun kw => (parseKeywords (String.ofList rest)).map fun r => kw :: r :=
+  parseKeywords_cons h
+
+example : NameOk "_xn".toList := ⟨by decide, by decide, by decide⟩
+example : parseKeywords "_xn:1c,2,3" = some [⟨"_xn", 1, 2, 3⟩] :=
+  parseKeywords_ctx_id_plural (name := "_xn".toList) (i := 1) (j := 2) (k := 3) ⟨by decide, by decide, by decide⟩
+    (by decide) (by decide) (by decide)
+-- error cases of `parseKeywords`
+example : parseKeywords "" = none := by decide
+example : parseKeywords "T;" = none := by decide                 -- empty function name
+example : parseKeywords ":1" = none := by decide
+example : parseKeywords "a:1:2" = none := by decide              -- two colons
+example : parseKeywords "a:x" = none := by decide                -- not a number
+example : parseKeywords "a:1c" = none := by decide               -- a lone position cannot be a context
+example : parseKeywords "a:1,2,3" = none := by decide            -- three positions need the `c`
+example : parseKeywords "a:1c,2,3,4" = none := by decide         -- too many positions
+example : parseKeywords "a:1_0" = none := by decide              -- no `_` in base 10
+example : parseKeywords "a:9223372036854775808" = none := by decide   -- out of range
+example : parseKeywords "a:+2" = some [⟨"a", 0, 2, 0⟩] := by decide  -- ParseInt accepts a sign
+example : parseKeywords "a:0" = some [⟨"a", 0, 0, 0⟩] := by decide   -- accepted: see the finding below
+example : parseKeywords "a:-3" = some [⟨"a", 0, 0, 0⟩] := by decide  -- negative = no position
+
+/-- every keyword of the default table has a msgid position -/
+theorem default_keywords_wf : ∀ kw ∈ defaultKws, 1 ≤ kw.id := by decide
+
+/-! ## `calls`: the nodes the listener sees -/
+
+/-- `calls e` lists exactly the call nodes that occur in `e` (at any depth: in arguments, callees, indexes,
+    slice bounds, operands, branches of `?:`, parentheses) -/
+theorem calls_are_the_call_nodes (e c : E) :
+    c ∈ calls e ↔ Sub c e ∧ ∃ f as ell, c = .call f as ell := mem_calls_iff
+
+example : calls nested =
+    [.call (.name "f") [.name "x", .call (.name "__") [.lit "str" "'in'"] false] false,
+     .call (.name "__") [.lit "str" "'in'"] false,
+     .call (.name "_n") [.lit "str" "'a'", .lit "str" "'b'", .lit "int" "2"] false] := rfl
+
+/-! ## completeness and soundness of the extraction -/
+
+/-- exact characterisation of the entries of one expression -/
+theorem mem_extract_iff (kws : List Keyword) (pos : Nat → Nat → Nat) (e : E) (x : Entry) :
+    x ∈ extract kws pos e ↔
+      ∃ n callee args ell kw, (calls e)[n]? = some (.call callee args ell) ∧ kw ∈ kws ∧
+        fnName callee = some kw.name ∧ args ≠ [] ∧ kw.maxArg ≤ args.length ∧
+        ((kw.id = 0 ∧ x = entryNoId kw args) ∨
+         (1 ≤ kw.id ∧ ∃ a s, args[kw.id - 1]? = some a ∧ strLit a = some s ∧
+            ¬ (s = "" ∧ litAt args kw.ctx = "") ∧ x = entryOf kw args s (pos n kw.id))) := by
+  rw [XT.mem_extract_iff]
+  constructor
+  · rintro ⟨n, c, hc, hx⟩
+    obtain ⟨f, as, ell, rfl, hx⟩ := mem_extractNode_iff.1 hx
+    obtain ⟨fn, hfn, hne, kw, hkw, hx⟩ := mem_extractCall_iff.1 hx
+    obtain ⟨hname, hmax, hx⟩ := mem_doExtract_iff.1 hx
+    refine ⟨n, f, as, ell, kw, hc, hkw, by rw [hfn, hname], hne, hmax, ?_⟩
+    rcases hx with hx | ⟨hid, s, hs, hne', rfl⟩
+    · exact .inl hx
+    · obtain ⟨a, ha, hs⟩ := litAt?_eq.1 hs
+      exact .inr ⟨hid, a, s, ha, hs, hne', rfl⟩
+  · rintro ⟨n, f, as, ell, kw, hc, hkw, hfn, hne, hmax, hx⟩
+    refine ⟨n, _, hc, mem_extractNode_iff.2 ⟨f, as, ell, rfl, mem_extractCall_iff.2 ⟨kw.name, hfn, hne, kw, hkw, ?_⟩⟩⟩
+    refine mem_doExtract_iff.2 ⟨rfl, hmax, ?_⟩
+    rcases hx with hx | ⟨hid, a, s, ha, hs, hne', rfl⟩
+    · exact .inl hx
+    · exact .inr ⟨hid, s, litAt?_eq.2 ⟨a, ha, hs⟩, hne', rfl⟩
+
+/-- COMPLETENESS: every call node of `e` (the `n`-th one) whose callee name is a keyword, with enough arguments,
+    a string literal `s` at the msgid position, and not (empty msgid and empty context) yields the entry with that
+    msgid, the decoded context / plural literals, and the reference of the msgid argument -/
+theorem extract_complete (kws : List Keyword) (pos : Nat → Nat → Nat) (e : E)
+    {n : Nat} {callee : E} {args : List E} {ell : Bool} {kw : Keyword} {a : E} {s : String}
+    (hc : (calls e)[n]? = some (.call callee args ell)) (hkw : kw ∈ kws)
+    (hfn : fnName callee = some kw.name) (hid : 1 ≤ kw.id)
+    (hmax : kw.ctx ≤ args.length ∧ kw.id ≤ args.length ∧ kw.plural ≤ args.length)
+    (ha : args[kw.id - 1]? = some a) (hs : strLit a = some s)
+    (hne : ¬ (s = "" ∧ litAt args kw.ctx = "")) :
+    entryOf kw args s (pos n kw.id) ∈ extract kws pos e := by
+  refine (mem_extract_iff kws pos e _).2 ⟨n, callee, args, ell, kw, hc, hkw, hfn, ?_, (maxArg_le_iff kw _).2 hmax,
+    .inr ⟨hid, a, s, ha, hs, hne, rfl⟩⟩
+  rintro rfl; simp at ha
+
+/-- the same for a call node given as a sub-expression -/
+theorem extract_complete_sub (kws : List Keyword) (pos : Nat → Nat → Nat) (e : E)
+    {callee : E} {args : List E} {ell : Bool} {kw : Keyword} {a : E} {s : String}
+    (hc : Sub (.call callee args ell) e) (hkw : kw ∈ kws)
+    (hfn : fnName callee = some kw.name) (hid : 1 ≤ kw.id)
+    (hmax : kw.ctx ≤ args.length ∧ kw.id ≤ args.length ∧ kw.plural ≤ args.length)
+    (ha : args[kw.id - 1]? = some a) (hs : strLit a = some s)
+    (hne : ¬ (s = "" ∧ litAt args kw.ctx = "")) :
+    ∃ n, (calls e)[n]? = some (.call callee args ell) ∧ entryOf kw args s (pos n kw.id) ∈ extract kws pos e := by
+  have hm : E.call callee args ell ∈ calls e := mem_calls_iff.2 ⟨hc, _, _, _, rfl⟩
+  obtain ⟨n, hn⟩ := List.getElem?_of_mem hm
+  exact ⟨n, hn, extract_complete kws pos e hn hkw hfn hid hmax ha hs hne⟩
+
+/-- the fields of the extracted entry: msgid `s`; context and plural are the decoded literals at their positions
+    when those arguments are literals, and empty when the keyword has no such position or the argument is not a
+    literal; the reference is the one of the msgid argument -/
+theorem entryOf_fields (kw : Keyword) (args : List E) (s : String) (o : Nat) :
+    (entryOf kw args s o).id = s ∧ (entryOf kw args s o).occ = o ∧ (entryOf kw args s o).cited = true ∧
+    (entryOf kw args s o).ctx = litAt args kw.ctx ∧ (entryOf kw args s o).plural = litAt args kw.plural ∧
+    (∀ i a t, 1 ≤ i → args[i - 1]? = some a → strLit a = some t → litAt args i = t) ∧
+    (∀ i a, args[i - 1]? = some a → strLit a = none → litAt args i = "") ∧ litAt args 0 = "" :=
+  ⟨rfl, rfl, rfl, rfl, rfl, fun _ _ _ hi ha ht => litAt_lit hi ha ht, fun _ _ ha hn => litAt_nonlit ha hn,
+    litAt_zero args⟩
+
+/-- SOUNDNESS: every extracted entry comes from a call node whose callee name is a keyword and which has at least
+    one and at least `MaxArgIndex` arguments; if the keyword has a msgid position the argument there is a string
+    literal, the entry is the one of `extract_complete`, and it is not (empty msgid, empty context).
+    (A keyword WITHOUT msgid position — `T:0` — yields an entry without msgid and reference: see the finding.) -/
+theorem extract_sound (kws : List Keyword) (pos : Nat → Nat → Nat) (e : E) (x : Entry)
+    (h : x ∈ extract kws pos e) :
+    ∃ n callee args ell kw, (calls e)[n]? = some (.call callee args ell) ∧ kw ∈ kws ∧
+      fnName callee = some kw.name ∧ args ≠ [] ∧
+      (kw.ctx ≤ args.length ∧ kw.id ≤ args.length ∧ kw.plural ≤ args.length) ∧
+      ((kw.id = 0 ∧ x = entryNoId kw args) ∨
+       (1 ≤ kw.id ∧ ∃ a s, args[kw.id - 1]? = some a ∧ strLit a = some s ∧
+          ¬ (s = "" ∧ litAt args kw.ctx = "") ∧ x = entryOf kw args s (pos n kw.id))) := by
+  obtain ⟨n, f, as, ell, kw, hc, hkw, hfn, hne, hmax, hx⟩ := (mem_extract_iff kws pos e x).1 h
+  exact ⟨n, f, as, ell, kw, hc, hkw, hfn, hne, (maxArg_le_iff kw _).1 hmax, hx⟩
+
+/-- soundness as C20 words it ("every entry comes from a keyword call with a literal msgid"), for keyword tables
+    in which every keyword has a msgid position (e.g. the default one).
+    FULL STATEMENT (false at HEAD, witness `header_replaced_by_position_zero`): the same without `hwf`.
+    Missing: `parseKeywords` must reject positions < 1 (or `doExtract` must return when `kw.MsgID <= 0`). -/
+theorem extract_sound_partial (kws : List Keyword) (hwf : ∀ kw ∈ kws, 1 ≤ kw.id) (pos : Nat → Nat → Nat) (e : E)
+    (x : Entry) (h : x ∈ extract kws pos e) :
+    ∃ n callee args ell kw a s, (calls e)[n]? = some (.call callee args ell) ∧ kw ∈ kws ∧
+      fnName callee = some kw.name ∧
+      (kw.ctx ≤ args.length ∧ kw.id ≤ args.length ∧ kw.plural ≤ args.length) ∧
+      args[kw.id - 1]? = some a ∧ strLit a = some s ∧ ¬ (s = "" ∧ litAt args kw.ctx = "") ∧
+      x = entryOf kw args s (pos n kw.id) := by
+  obtain ⟨n, f, as, ell, kw, hc, hkw, hfn, _, hmax, hx⟩ := extract_sound kws pos e x h
+  rcases hx with ⟨h0, _⟩ | ⟨_, a, s, ha, hs, hne, rfl⟩
+  · have := hwf kw hkw; omega
+  · exact ⟨n, f, as, ell, kw, a, s, hc, hkw, hfn, hmax, ha, hs, hne, rfl⟩
+
+/-- "add nothing", call by call: too few arguments -/
+theorem too_few_arguments_add_nothing (kw : Keyword) (fn : String) (args : List E) (occ : Nat → Nat)
+    (h : args.length < kw.ctx ∨ args.length < kw.id ∨ args.length < kw.plural) : doExtract kw fn args occ = [] := by
+  apply List.eq_nil_iff_forall_not_mem.2
+  intro x hx
+  have := (maxArg_le_iff kw _).1 (mem_doExtract_iff.1 hx).2.1
+  omega
+
+/-- … a msgid argument that is not a string literal (a name, a concatenation, a parenthesised literal, …) -/
+theorem nonliteral_msgid_adds_nothing (kw : Keyword) (fn : String) (args : List E) (occ : Nat → Nat) (a : E)
+    (hid : 1 ≤ kw.id) (ha : args[kw.id - 1]? = some a) (hs : strLit a = none) : doExtract kw fn args occ = [] := by
+  apply List.eq_nil_iff_forall_not_mem.2
+  intro x hx
+  rcases (mem_doExtract_iff.1 hx).2.2 with ⟨h0, _⟩ | ⟨_, s, hs', _⟩
+  · omega
+  · obtain ⟨a', ha', hs''⟩ := litAt?_eq.1 hs'
+    rw [ha] at ha'; cases ha'; rw [hs] at hs''; cases hs''
+
+/-- … an empty msgid literal without (non-empty literal) context -/
+theorem empty_msgid_without_context_adds_nothing (kw : Keyword) (fn : String) (args : List E) (occ : Nat → Nat)
+    (a : E) (hid : 1 ≤ kw.id) (ha : args[kw.id - 1]? = some a) (hs : strLit a = some "")
+    (hc : litAt args kw.ctx = "") : doExtract kw fn args occ = [] := by
+  apply List.eq_nil_iff_forall_not_mem.2
+  intro x hx
+  rcases (mem_doExtract_iff.1 hx).2.2 with ⟨h0, _⟩ | ⟨_, s, hs', hne, _⟩
+  · omega
+  · obtain ⟨a', ha', hs''⟩ := litAt?_eq.1 hs'
+    rw [ha] at ha'; cases ha'; rw [hs] at hs''; cases hs''
+    exact hne ⟨rfl, hc⟩
+
+/-- … a callee whose name is no keyword (or that has no name: a literal, an index, a call result, an operator
+    expression in parentheses), and a call without arguments -/
+theorem unknown_callee_adds_nothing (kws : List Keyword) (callee : E) (args : List E) (occ : Nat → Nat)
+    (h : ∀ kw ∈ kws, fnName callee ≠ some kw.name) : extractCall kws callee args occ = [] := by
+  apply List.eq_nil_iff_forall_not_mem.2
+  intro x hx
+  obtain ⟨fn, hfn, _, kw, hkw, hx⟩ := mem_extractCall_iff.1 hx
+  exact h kw hkw (by rw [hfn, (mem_doExtract_iff.1 hx).1])
+
+theorem no_arguments_add_nothing (kws : List Keyword) (callee : E) (occ : Nat → Nat) :
+    extractCall kws callee [] occ = [] := by
+  unfold extractCall; cases fnName callee <;> simp
+
+/-- calls nested (at any depth) inside an argument of another call are extracted too -/
+theorem nested_calls_found (kws : List Keyword) (pos : Nat → Nat → Nat)
+    {f : E} {as : List E} {ell0 : Bool} {arg : E} (harg : arg ∈ as)
+    {callee : E} {args : List E} {ell : Bool} {kw : Keyword} {a : E} {s : String}
+    (hc : Sub (.call callee args ell) arg) (hkw : kw ∈ kws)
+    (hfn : fnName callee = some kw.name) (hid : 1 ≤ kw.id)
+    (hmax : kw.ctx ≤ args.length ∧ kw.id ≤ args.length ∧ kw.plural ≤ args.length)
+    (ha : args[kw.id - 1]? = some a) (hs : strLit a = some s)
+    (hne : ¬ (s = "" ∧ litAt args kw.ctx = "")) :
+    ∃ n, entryOf kw args s (pos n kw.id) ∈ extract kws pos (.call f as ell0) := by
+  obtain ⟨n, _, h⟩ := extract_complete_sub kws pos (.call f as ell0) (.step hc (.callArg harg)) hkw hfn hid hmax ha hs hne
+  exact ⟨n, h⟩
+
+/-- the entries of all trees: `extractMany` is the concatenation, so all of the above lifts tree by tree -/
+theorem mem_extractMany_iff (kws : List Keyword) (ts : List ((Nat → Nat → Nat) × E)) (x : Entry) :
+    x ∈ extractMany kws ts ↔ ∃ t ∈ ts, x ∈ extract kws t.1 t.2 := XT.mem_extractMany_iff
+
+/-! ### non-vacuity -/
+
+-- the model on the concrete inputs
+example : extract defaultKws pos0 big =
+    [⟨"", "hello", "", 1, true⟩, ⟨"c", "one", "many", 102, true⟩, ⟨"", "hello", "", 201, true⟩,
+     ⟨"", "in", "", 401, true⟩, ⟨"", "a", "b", 501, true⟩] := by decide
+example : extract defaultKws pos0 nothing = [] := by decide
+example : (calls nothing).length = 6 := by decide
+
+-- `extract_complete` on `_xn("c", 'one', `many`, n)`, the 2nd call node of `big`
+example : entryOf ⟨"_xn", 1, 2, 3⟩ [.lit "str" "\"c\"", .lit "str" "'one'", .lit "str" "`many`", .name "n"] "one"
+    (pos0 1 2) ∈ extract defaultKws pos0 big :=
+  extract_complete defaultKws pos0 big (n := 1) (callee := .name "_xn") (ell := false) (a := .lit "str" "'one'")
+    rfl (by decide) (by decide) (by decide) (by decide) rfl (by decide) (by decide)
+example : entryOf ⟨"_xn", 1, 2, 3⟩ [.lit "str" "\"c\"", .lit "str" "'one'", .lit "str" "`many`", .name "n"] "one" 102
+    = ⟨"c", "one", "many", 102, true⟩ := by decide
+
+-- `nested_calls_found` on `f(x, __('in'))`
+example : ∃ n, entryOf ⟨"__", 0, 1, 0⟩ [.lit "str" "'in'"] "in" (pos0 n 1) ∈
+    extract defaultKws pos0 (.call (.name "f") [.name "x", .call (.name "__") [.lit "str" "'in'"] false] false) :=
+  nested_calls_found defaultKws pos0 (arg := .call (.name "__") [.lit "str" "'in'"] false) (by simp)
+    (callee := .name "__") (a := .lit "str" "'in'") .refl (by decide) (by decide) (by decide) (by decide)
+    rfl (by decide) (by decide)
+
+-- `extract_sound_partial`: its hypotheses hold for the default table and a non-empty extraction
+example : (∀ kw ∈ defaultKws, 1 ≤ kw.id) ∧ (⟨"", "in", "", 401, true⟩ : Entry) ∈ extract defaultKws pos0 big := by
+  decide
+
+-- the "nothing" lemmas
+example : doExtract ⟨"_xn", 1, 2, 3⟩ "_xn" [.lit "str" "'c'", .lit "str" "'id'"] id = [] :=
+  too_few_arguments_add_nothing _ _ _ _ (by decide)
+example : doExtract ⟨"T", 0, 1, 0⟩ "T" [.paren (.lit "str" "'p'")] id = [] :=
+  nonliteral_msgid_adds_nothing _ _ _ _ (.paren (.lit "str" "'p'")) (by decide) rfl (by decide)
+example : doExtract ⟨"T", 0, 1, 0⟩ "T" [.lit "str" "''"] id = [] :=
+  empty_msgid_without_context_adds_nothing _ _ _ _ (.lit "str" "''") (by decide) rfl (by decide) (by decide)
+-- … whereas an empty msgid WITH a context is extracted (as gettext does)
+example : doExtract ⟨"_x", 1, 2, 0⟩ "_x" [.lit "str" "'c'", .lit "str" "''"] id = [⟨"c", "", "", 2, true⟩] := by decide
+example : extractCall defaultKws (.index (.name "t") (.lit "str" "'T'")) [.lit "str" "'x'"] id = [] :=
+  unknown_callee_adds_nothing _ _ _ _ (by decide)
+
+-- through the real parser model
+example : EL.parseCode "t.T('hello')" matches .accept _ := by decide +kernel
+example : (match EL.parseCode "t.T('hello') + _xn(`c`, \"one\", 'many', n) + T(x)" with
+    | .accept e => extract defaultKws pos0 e
+    | _ => []) = [⟨"", "hello", "", 1, true⟩, ⟨"c", "one", "many", 102, true⟩] := by decide +kernel
+
+/-! ## the run-time strings -/
+
+/-- the string stored for a literal argument is `EV.decodeStr` of its text — the very function the evaluator
+    model applies to that literal (`EV.eval (.lit "str" t)` returns `.str s` iff `EV.decodeStr t = .ok s`; `eval`
+    is a `partial def`, so this link is by the shared definition) — and `""` when `strconv.Unquote` fails -/
+theorem runtime_strings_agree (t : String) :
+    strLit (.lit "str" t) = match EV.decodeStr t with | .ok s => some s | _ => some "" := by
+  simp only [strLit, unquote, if_true]
+  cases EV.decodeStr t <;> rfl
+
+/-- … so whenever the literal decodes, catalogue string = run-time string -/
+theorem runtime_strings_agree_ok (t s : String) (h : EV.decodeStr t = .ok s) : strLit (.lit "str" t) = some s := by
+  rw [runtime_strings_agree, h]
+
+/-- every string written as a literal in one of the three quoting styles (the encoders of M5/C14) is stored as
+    exactly that string -/
+theorem literal_roundtrip (s : List Char) :
+    strLit (.lit "str" (String.ofList (ENC.encodeDQ s))) = some (String.ofList s) ∧
+    strLit (.lit "str" (String.ofList (ENC.encodeSQ s))) = some (String.ofList s) ∧
+    ('`' ∉ s → '\r' ∉ s → strLit (.lit "str" (String.ofList (ENC.encodeRaw s))) = some (String.ofList s)) :=
+  ⟨runtime_strings_agree_ok _ _ (C14.decode_encode_dq s), runtime_strings_agree_ok _ _ (C14.decode_encode_sq s),
+    fun h1 h2 => runtime_strings_agree_ok _ _ (C14.decode_encode_raw s h1 h2)⟩
+
+/-- only string literals count -/
+theorem strLit_some_iff (a : E) (s : String) :
+    strLit a = some s ↔ ∃ t, a = .lit "str" t ∧ s = unquote t := by
+  cases a <;> simp [strLit]
+  case lit kind text =>
+    by_cases h : kind = "str"
+    · subst h; simp [eq_comm]
+    · simp [h]
+
+example : strLit (.lit "str" "'it\\'s \"x\"\\n'") = some "it's \"x\"\n" :=
+  runtime_strings_agree_ok _ _ (by decide)
+example : strLit (.lit "str" "`raw\\n`") = some "raw\\n" := runtime_strings_agree_ok _ _ (by decide)
+example : strLit (.lit "str" "\"bad \\q\"") = some "" := by decide   -- Unquote fails: xtpl stores ""
+example : strLit (.lit "int" "1") = none := by decide
+
+/-! ## the catalogue (`Save`) -/
+
+/-- the keys of the catalogue are pairwise distinct -/
+theorem catalogue_keys_distinct (es : List Entry) : ((catalogue es).map (·.1)).Nodup := by
+  rw [catalogue_keys]; exact (mergeBy_inv Entry.key es).1
+
+/-- … they are exactly the (context, msgid) pairs of the entries … -/
+theorem catalogue_keys_complete (es : List Entry) (k : String × String) :
+    k ∈ (catalogue es).map (·.1) ↔ ∃ e ∈ es, (e.ctx, e.id) = k := by
+  rw [catalogue_keys]; exact mem_keys_mergeBy_iff Entry.key es k
+
+/-- … in first-occurrence order -/
+theorem catalogue_keys_order (es : List Entry) :
+    (catalogue es).map (·.1) = firstOcc (es.map fun e => (e.ctx, e.id)) := by
+  rw [catalogue_keys]; exact (mergeBy_inv Entry.key es).2.2
+
+/-- the row of a key: its reference list is exactly the references of the entries with that key, in order, and
+    its plural is the one of the LAST such entry -/
+theorem catalogue_refs_complete (es : List Entry) (k : String × String) (p : String) (r : List Nat) :
+    (k, p, r) ∈ catalogue es ↔
+      (∃ e, (es.filter fun e => (e.ctx, e.id) = k).getLast? = some e ∧ p = e.plural) ∧
+      r = (es.filter fun e => (e.ctx, e.id) = k).flatMap Entry.refs := by
+  rw [mem_catalogue_iff]
+  simp only [matching, Entry.key]
+  constructor
+  · rintro ⟨e, h1, h2, h3⟩; exact ⟨⟨e, h1, h2⟩, h3⟩
+  · rintro ⟨⟨e, h1, h2⟩, h3⟩; exact ⟨e, h1, h2, h3⟩
+
+/-- when every entry carries its reference (always, for keyword tables with msgid positions:
+    `extract_cited_partial`) the reference list is the list of ALL occurrences, however many -/
+theorem catalogue_refs_occ (es : List Entry) (hc : ∀ e ∈ es, e.cited = true)
+    (k : String × String) (p : String) (r : List Nat) (h : (k, p, r) ∈ catalogue es) :
+    r = (es.filter fun e => (e.ctx, e.id) = k).map (·.occ) ∧
+    r.length = es.countP (fun e => (e.ctx, e.id) = k) := by
+  have h1 := ((catalogue_refs_complete es k p r).1 h).2
+  have h2 : r = (es.filter fun e => (e.ctx, e.id) = k).map (·.occ) := by
+    rw [h1]; exact refs_eq_map_occ (fun e he => hc e (List.mem_filter.1 he).1)
+  exact ⟨h2, by rw [h2, List.length_map, List.countP_eq_length_filter]⟩
+
+/-- every key of an entry has a row (with the previous theorems: exactly one) -/
+theorem catalogue_row_exists (es : List Entry) (e : Entry) (he : e ∈ es) :
+    ∃ p r, ((e.ctx, e.id), p, r) ∈ catalogue es ∧ (e.cited = true → e.occ ∈ r) := by
+  have hk : (e.ctx, e.id) ∈ (catalogue es).map (·.1) := (catalogue_keys_complete es _).2 ⟨e, he, rfl⟩
+  obtain ⟨⟨k, p, r⟩, hm, hk'⟩ := List.mem_map.1 hk
+  simp only at hk'; subst hk'
+  refine ⟨p, r, hm, fun hc => ?_⟩
+  rw [((catalogue_refs_complete es _ p r).1 hm).2, List.mem_flatMap]
+  exact ⟨e, List.mem_filter.2 ⟨he, by simp⟩, by simp [Entry.refs, hc]⟩
+
+/-- entries extracted with a table whose keywords all have a msgid position carry their reference
+    (FULL STATEMENT without `hwf` false at HEAD: the entry of a keyword `T:0` has no `#:` comment) -/
+theorem extract_cited_partial (kws : List Keyword) (hwf : ∀ kw ∈ kws, 1 ≤ kw.id) (pos : Nat → Nat → Nat) (e : E)
+    (x : Entry) (h : x ∈ extract kws pos e) : x.cited = true := by
+  obtain ⟨_, _, _, _, _, _, _, _, _, _, _, _, _, _, rfl⟩ := extract_sound_partial kws hwf pos e x h
+  rfl
+
+-- three occurrences of one msgid (different plurals), another key in between: all references kept, last plural
+example : catalogue [⟨"", "a", "", 1, true⟩, ⟨"c", "a", "", 2, true⟩, ⟨"", "a", "as", 3, true⟩, ⟨"", "a", "A", 4, true⟩]
+    = [(("", "a"), "A", [1, 3, 4]), (("c", "a"), "", [2])] := by decide
+example : catalogue (extract defaultKws pos0 big) =
+    [(("", "hello"), "", [1, 201]), (("c", "one"), "many", [102]), (("", "in"), "", [401]), (("", "a"), "b", [501])] := by
+  decide
+example : (("", "a"), "A", [1, 3, 4]) ∈
+    catalogue [⟨"", "a", "", 1, true⟩, ⟨"c", "a", "", 2, true⟩, ⟨"", "a", "as", 3, true⟩, ⟨"", "a", "A", 4, true⟩] ∧
+    [1, 3, 4].length = 3 := by decide
+
+/-! ## the header -/
+
+/-- no entry extracted with a table whose keywords all have a msgid position has the header's key
+    (context "" and msgid "") …
+    FULL STATEMENT (false at HEAD, witness `header_replaced_by_position_zero`): the same without `hwf`. -/
+theorem header_never_replaced_partial (kws : List Keyword) (hwf : ∀ kw ∈ kws, 1 ≤ kw.id) (pos : Nat → Nat → Nat) (e : E)
+    (x : Entry) (h : x ∈ extract kws pos e) :
+    ¬ (x.ctx = "" ∧ x.id = "") ∧ x.key ≠ ("", "") ∧ x.goKey ≠ headerKey := by
+  obtain ⟨n, _, args, _, kw, _, s, _, _, _, _, _, _, hne, rfl⟩ := extract_sound_partial kws hwf pos e x h
+  have h1 : ¬ ((entryOf kw args s (pos n kw.id)).ctx = "" ∧ (entryOf kw args s (pos n kw.id)).id = "") :=
+    fun hh => hne ⟨hh.2, hh.1⟩
+  refine ⟨h1, ?_, fun hh => h1 ((goKey_eq_headerKey_iff _).1 hh)⟩
+  intro hh
+  simp only [Entry.key, Prod.mk.injEq] at hh
+  exact h1 hh
+
+/-- … so `Save` keeps the header entry: the POT entry map is the header followed by the merged entries (keyed
+    by the translator's `Key()`), for the entries of any number of trees.
+    FULL STATEMENT (false at HEAD, same witness): the same without `hwf`. -/
+theorem header_kept_partial (kws : List Keyword) (hwf : ∀ kw ∈ kws, 1 ≤ kw.id) (ts : List ((Nat → Nat → Nat) × E)) :
+    save (extractMany kws ts) = (headerKey, PotEntry.header) ::
+      (mergeBy Entry.goKey (extractMany kws ts)).map (fun x => (x.1, PotEntry.msg x.2.1 x.2.2)) := by
+  apply save_eq_of_no_header_key
+  intro x hx
+  obtain ⟨t, _, hx⟩ := XT.mem_extractMany_iff.1 hx
+  exact (header_never_replaced_partial kws hwf t.1 t.2 x hx).1
+
+/-- the translator's key `ctxt + "\x04" + msgid` separates (context, msgid) pairs whose contexts are free of
+    U+0004 (all of `catalogue_*` holds verbatim for `mergeBy Entry.goKey`: the lemmas are generic in the key) -/
+theorem goKey_faithful (a b : Entry) (ha : '\x04' ∉ a.ctx.toList) (hb : '\x04' ∉ b.ctx.toList) :
+    a.goKey = b.goKey ↔ (a.ctx, a.id) = (b.ctx, b.id) := by
+  constructor
+  · exact goKey_inj ha hb
+  · intro h; simp only [Prod.mk.injEq] at h; simp [Entry.goKey, h.1, h.2]
+
+example : save (extractMany defaultKws [(pos0, callT), (pos0, nothing), (fun n i => 1000 + pos0 n i, callT2)]) =
+    [(headerKey, .header), ("\x04hello", .msg ⟨"", "hello", "", 1001, true⟩ [1, 1001])] := by decide
+example : (∀ kw ∈ defaultKws, 1 ≤ kw.id) ∧ extract defaultKws pos0 big ≠ [] := by decide
+
+/-- FINDING: a keyword without msgid position (accepted by `parseKeywords`: `T:0`, `T:-1`) makes any call `T(x)`
+    replace the POT header by an entry without msgid, msgstr and references -/
+theorem header_replaced_by_position_zero :
+    parseKeywords "T:0" = some [⟨"T", 0, 0, 0⟩] ∧
+    save (extract [⟨"T", 0, 0, 0⟩] pos0 (.call (.name "T") [.name "x"] false)) =
+      [(headerKey, .msg ⟨"", "", "", 0, false⟩ [])] := by decide
+
+end C20
